@@ -194,15 +194,18 @@ m1! {
 fn m5_body(hard: bool, iw: u8, cw: u8) {
     let lit_a: &'static str = "\'\'\'\n a\n \'\'\'";
     let lit_b: &'static str = "\'\'\'\n   b\n   \'\'\'";
-    let crlf: bool = kani::any();
+    let crlf = hard;
     let rs = recon_settings(crlf, hard, iw, cw);
-    let (ia, ca, ib, cb) = (any_upto(1), any_upto(1), any_upto(1), any_upto(1));
-    let tokens = vec![
+    // the first literal's target is concrete (and differs from its current indentation, so it is
+    // certainly rewritten); the second one's is symbolic
+    let (ia, ca) = (1u16, 0u16);
+    let (ib, cb) = (any_upto(1), any_upto(1));
+    let mut toks = [
         tok(lit_a, 0, TokenType::TextLiteral(TextLiteralKind::MultiLine)),
         tok(",", 0, TokenType::Op(OperatorKind::Comma)),
         tok(lit_b, 0, TokenType::TextLiteral(TextLiteralKind::MultiLine)),
     ];
-    let mut ft = FormattedTokens::verif_new(leak_tokens(tokens), vec![fd(false, 1, ia, ca, 0), fd(false, 0, 0, 0, 0), fd(false, 1, ib, cb, 0)]);
+    let mut ft = FormattedTokens::verif_new(&mut toks, vec![fd(false, 1, ia, ca, 0), fd(false, 0, 0, 0, 0), fd(false, 1, ib, cb, 0)]);
     let line = LogicalLine::new(None, 0, vec![0, 1, 2], LogicalLineType::Unknown);
     let changed = ms::format_multiline_strings(&rs, &line, &mut ft);
     let nl: &[u8] = if crlf { b"\r\n" } else { b"\n" };
